@@ -114,6 +114,9 @@ pub struct BuildOpts {
     /// `false`: segments are packed tightly, `p_align = 16` and
     /// `p_offset == p_vaddr (mod 16)` -- much smaller files.
     pub page_congruent: bool,
+    /// added to p_vaddr to give the p_paddr of every PT_LOAD (0: the usual p_paddr == p_vaddr). The physical address
+    /// is 'unspecified' for System V and means a load address on firmware images; a loader maps at p_vaddr.
+    pub paddr_delta: u64,
 }
 
 // ---- constants -----------------------------------------------------------
@@ -322,7 +325,7 @@ fn write_relocs(w: &mut W, rels: &[RelocSpec], rela: bool) {
 }
 
 pub fn build(spec: &ElfSpec) -> BuiltElf {
-    build_with(spec, &BuildOpts { page_congruent: true })
+    build_with(spec, &BuildOpts { page_congruent: true, paddr_delta: 0 })
 }
 
 pub fn build_with(spec: &ElfSpec, opts: &BuildOpts) -> BuiltElf {
@@ -642,7 +645,7 @@ pub fn build_with(spec: &ElfSpec, opts: &BuildOpts) -> BuiltElf {
             w.u32(p.flags);
             w.u64(p.offset);
             w.u64(p.vaddr);
-            w.u64(p.vaddr);
+            w.u64(if p.ptype == PT_LOAD { p.vaddr.wrapping_add(opts.paddr_delta) } else { p.vaddr });
             w.u64(p.filesz);
             w.u64(p.memsz);
             w.u64(p.align);
@@ -650,7 +653,7 @@ pub fn build_with(spec: &ElfSpec, opts: &BuildOpts) -> BuiltElf {
             w.u32(p.ptype);
             w.u32(p.offset as u32);
             w.u32(p.vaddr as u32);
-            w.u32(p.vaddr as u32);
+            w.u32(if p.ptype == PT_LOAD { p.vaddr.wrapping_add(opts.paddr_delta) as u32 } else { p.vaddr as u32 });
             w.u32(p.filesz as u32);
             w.u32(p.memsz as u32);
             w.u32(p.flags);
@@ -1079,7 +1082,7 @@ mod tests {
     fn full_roundtrip(class64: bool, big_endian: bool, machine: u16, use_rela: bool) {
         let spec = full_spec(class64, big_endian, machine, use_rela);
         for pc in [true, false] {
-            let b = build_with(&spec, &BuildOpts { page_congruent: pc });
+            let b = build_with(&spec, &BuildOpts { page_congruent: pc, paddr_delta: 0 });
             if pc {
                 assert_eq!(b, build(&spec));
             }
@@ -1332,7 +1335,7 @@ mod tests {
         let (mut n_dyn, mut n_static, mut n64, mut nbe) = (0, 0, 0, 0);
         for _ in 0..200 {
             let spec = random_spec(&mut r);
-            let opts = BuildOpts { page_congruent: r.flag() };
+            let opts = BuildOpts { page_congruent: r.flag(), paddr_delta: 0 };
             let b = build_with(&spec, &opts);
             verify(&spec, &b);
             assert_eq!(b, build_with(&spec, &opts), "deterministic output");
